@@ -26,7 +26,8 @@ TRUSTED_BASE = [
 class Stream:
     """One correspondence stream: operation lines plus what to compare and how to judge."""
 
-    def __init__(self, name, lines, fields=None, oracle=None, model=True, note=""):
+    def __init__(self, name, lines, fields=None, oracle=None, model=True, note="", shrink=True):
+        self.shrinkable = shrink
         self.name = name
         self.lines = lines
         self.fields = fields          # {op: [fields]} projection; None = all model fields
@@ -94,9 +95,14 @@ def classify(msg):
 
 def shrink(st, lines, idx, kind, key, budget=40):
     """Greedy delta debugging on the operations before the failing one (setup lines are kept)."""
+    if not getattr(st, "shrinkable", True):
+        return lines
     cur = lines[: idx + 1]
-    if not still_fails(st, cur, kind, key):
-        return cur
+    try:
+        if not still_fails(st, cur, kind, key):
+            return lines
+    except Exception:
+        return lines
     tries = 0
     i = len(cur) - 2
     while i >= 0 and tries < budget:
@@ -105,7 +111,11 @@ def shrink(st, lines, idx, kind, key, budget=40):
             continue
         cand = cur[:i] + cur[i + 1:]
         tries += 1
-        if still_fails(st, cand, kind, key):
+        try:
+            ok = still_fails(st, cand, kind, key)
+        except Exception:
+            ok = False
+        if ok:
             cur = cand
         i -= 1
     return cur
@@ -252,11 +262,17 @@ def write_evidence(pc, tier, seed, res, st_prep, obligations, discharged, violat
         cov["discharged"] = 1 if obligations == 0 else 0
     if extra:
         cov.update(extra)
+    level = pc.level
+    if level == "proof" and obligations == 0:
+        # no Lean theorem for this property yet: the run is correspondence + oracle only, and says so
+        level = "other"
+        cov["explanation"] = ("no Lean property theorem is registered for this property yet; this run decided it by the correspondence between the "
+                              "executable Lean model and the implementation plus the property's executable oracle only")
     ev = {
         "property_id": pc.id,
         "tier": tier,
         "seed": seed,
-        "level": pc.level,
+        "level": level,
         "coverage": cov,
         "assumptions": pc.assumptions,
         "wall_s": round(res.wall, 2),
